@@ -15,6 +15,7 @@ import (
 	"sort"
 	"strconv"
 	"strings"
+	"sync"
 	"time"
 )
 
@@ -152,6 +153,9 @@ func runProperty(spec *PropSpec, tier string, seed, workers int) int {
 	totalStates, totalTrans := 0, 0
 	var rewritten []string
 	xcCompared, xcUndecided, xcNote := 0, 0, ""
+	var xcDisagree []string
+	var xcWG sync.WaitGroup
+	var xcMu sync.Mutex
 
 	view, err := buildView(false, pkgs)
 	var world *World
@@ -174,21 +178,27 @@ func runProperty(spec *PropSpec, tier string, seed, workers int) int {
 			h.QueryLog = filepath.Join(scratch(), fmt.Sprintf("qlog-%d.smt2", hi))
 			st, err := explore(world, h, workers)
 			if err == nil {
-				budget := 60 * time.Second
+				budget := 25 * time.Second
 				if tier == "thorough" {
-					budget = 300 * time.Second
+					budget = 120 * time.Second
 				}
-				c, u, dis, xerr := crossCheck(h.QueryLog, budget)
-				xcCompared += c
-				xcUndecided += u
-				for _, d := range dis {
-					say("SOLVER-DISAGREEMENT harness=%s %s", h.Func, d)
-					inconclusive = append(inconclusive, "solver disagreement: "+d)
-				}
-				if xerr != nil && !os.IsNotExist(xerr) {
-					xcNote = xerr.Error()
-				}
-				os.Remove(h.QueryLog)
+				// the second solver replays this harness's query log in the background while the next harness runs
+				xcWG.Add(1)
+				go func(path, fn string) {
+					defer xcWG.Done()
+					c, u, dis, xerr := crossCheck(path, budget)
+					xcMu.Lock()
+					defer xcMu.Unlock()
+					xcCompared += c
+					xcUndecided += u
+					for _, d := range dis {
+						xcDisagree = append(xcDisagree, fmt.Sprintf("harness=%s %s", fn, d))
+					}
+					if xerr != nil && !os.IsNotExist(xerr) {
+						xcNote = xerr.Error()
+					}
+					os.Remove(path)
+				}(h.QueryLog, h.Func)
 			}
 			if err != nil {
 				say("INCONCLUSIVE explore %s: %v", h.Name, err)
@@ -311,6 +321,11 @@ func runProperty(spec *PropSpec, tier string, seed, workers int) int {
 			}
 		}
 	}
+	xcWG.Wait()
+	for _, d := range xcDisagree {
+		say("SOLVER-DISAGREEMENT %s", d)
+		inconclusive = append(inconclusive, "solver disagreement: "+d)
+	}
 	if tvBad > 0 {
 		inconclusive = append(inconclusive, fmt.Sprintf("translation validation: %d passing paths behaved differently natively", tvBad))
 	}
@@ -353,8 +368,8 @@ func runProperty(spec *PropSpec, tier string, seed, workers int) int {
 		"outside_bounds":                spec.Outside,
 		"harnesses":                     reports,
 		"solver":                        solverBin[0] + ": " + solverVersion(),
-		"solver_crosscheck": map[string]interface{}{"second_solver": strings.Join(crossCheckBin, " "), "queries_compared": xcCompared, "not_decided_by_second_solver_in_time": xcUndecided, "disagreements": 0, "note": xcNote,
-			"how": "the first <= 400 queries of one worker per harness (definitions + push/assert/check-sat/pop text exactly as sent) are replayed on the second solver; a differing verdict makes the run inconclusive"},
+		"solver_crosscheck": map[string]interface{}{"second_solver": strings.Join(crossCheckBin, " "), "queries_compared": xcCompared, "not_decided_by_second_solver_in_time": xcUndecided, "disagreements": len(xcDisagree), "note": xcNote,
+			"how": "the first <= 150 queries of one worker per harness (definitions + push/assert/check-sat/pop text exactly as sent) are replayed on the second solver; a differing verdict makes the run inconclusive"},
 		"queries_discharged":                  queries,
 		"solver_s":                            solverS,
 		"known_findings_seen":                 keys(knownSeen),
